@@ -287,6 +287,8 @@ pub struct Perturb {
     pub hooks: bool,
     /// the machine may be replaced by its clone
     pub clone: bool,
+    /// start address of an area the monitor created empty and never resizes (0 = none): it may get a new mask
+    pub decoy: u64,
 }
 
 fn perturb_noop_hook(_: &mut Axecutor, _: ax_x86::auto::generated::SupportedMnemonic) -> Result<ax_x86::state::hooks::HookResult, Box<dyn std::error::Error>> {
@@ -301,6 +303,8 @@ fn perturb_noop_hook(_: &mut Axecutor, _: ax_x86::auto::generated::SupportedMnem
 pub fn perturb(ax: &mut Axecutor, rng: &mut crate::util::Rng, o: &Perturb) -> Option<String> {
     let before = snapshot(ax);
     let mut made_area = false;
+    let mut made_at = 0u64;
+    let mut reprot: Option<(u64, u32)> = None;
     let what: &str;
     match rng.below(8) {
         0 => {
@@ -336,9 +340,26 @@ pub fn perturb(ax: &mut Axecutor, rng: &mut crate::util::Rng, o: &Perturb) -> Op
             let _ = call(|| ax.hook_before_mnemonic_native(ax_x86::auto::generated::SupportedMnemonic::Nop, &perturb_noop_hook));
         }
         4 if o.areas => {
-            what = "far-away empty area";
-            let at = 0x7777_1000_0000u64 + 0x1000 * rng.below(1 << 16) + rng.below(0x1000);
-            made_area = call(|| ax.mem_init_zero(at, 0)).is_ok();
+            // an empty area occupies no address: far away, or strictly inside an existing area, where it additionally
+            // gets a mask of its own (mem_prot addressed at it concerns it alone)
+            let inside: Vec<_> = before.areas.iter().filter(|a| a.length > 2).collect();
+            if rng.below(2) == 0 && !inside.is_empty() {
+                what = "empty area inside an existing area, then mem_prot on the empty one";
+                let host = inside[rng.below(inside.len() as u64) as usize];
+                let at = host.start + 1 + rng.below(host.length - 2);
+                if !before.areas.iter().any(|b| b.start == at) {
+                    made_area = call(|| ax.mem_init_zero(at, 0)).is_ok();
+                    if made_area {
+                        made_at = at;
+                        let _ = call(|| ax.mem_prot(at, rng.below(8) as u32));
+                    }
+                }
+            } else {
+                what = "far-away empty area";
+                let at = 0x7777_1000_0000u64 + 0x1000 * rng.below(1 << 16) + rng.below(0x1000);
+                made_area = call(|| ax.mem_init_zero(at, 0)).is_ok();
+                made_at = at;
+            }
         }
         5 => {
             what = "mem_prot with the current mask";
@@ -346,6 +367,10 @@ pub fn perturb(ax: &mut Axecutor, rng: &mut crate::util::Rng, o: &Perturb) -> Op
                 let a = &before.areas[rng.below(before.areas.len() as u64) as usize];
                 if a.length > 0 && before.areas.iter().filter(|b| b.start == a.start).count() == 1 {
                     let _ = call(|| ax.mem_prot(a.start, a.access));
+                } else if a.length == 0 && a.start == o.decoy && o.decoy != 0 && before.areas.iter().filter(|b| b.start == a.start).count() == 1 {
+                    // an empty area gets a new mask: whatever surrounds it is not concerned
+                    let _ = call(|| ax.mem_prot(a.start, rng.below(8) as u32));
+                    reprot = Some((a.start, a.access));
                 }
             }
         }
@@ -360,7 +385,12 @@ pub fn perturb(ax: &mut Axecutor, rng: &mut crate::util::Rng, o: &Perturb) -> Op
     }
     let mut after = snapshot(ax);
     if made_area {
-        after.areas.retain(|a| !(a.length == 0 && a.start >= 0x7777_1000_0000 && !before.areas.iter().any(|b| b.start == a.start)));
+        after.areas.retain(|a| !(a.length == 0 && a.start == made_at && !before.areas.iter().any(|b| b.start == a.start)));
+    }
+    if let Some((at, acc)) = reprot {
+        for a in after.areas.iter_mut().filter(|a| a.start == at && a.length == 0) {
+            a.access = acc;
+        }
     }
     snapshot_diff(&before, &after).map(|d| format!("{} changed the machine: {}", what, d))
 }
